@@ -6,10 +6,613 @@ Every definition cites the Rust function it transcribes (file + fn) and keeps it
 wrapping arithmetic and its error returns; `Out.trap` / `none`-as-panic results mark what would be a panic of
 the overflow-checked profile, and Props/C01HandGlyf.lean shows they are never produced.  Tied to the real code
 by harness group `glyf.model` (driver commands `hg.*`, Drv/C01HandGlyf.lean).
+
+Relation to Model/Glyf.lean (check C09): that file transcribes the same readers as *value* functions over
+list tails (what a well-behaved run returns) and has no way to express a panic; here every cursor is the
+`HandRead.Cur` position model (saturating, advancing on failed reads) and every unchecked `+ - *`, index
+and slice of the Rust source is an explicit trap test.  The flag constants, `hasBit`, `Anchor` and
+`Transform` of Model/Glyf.lean are reused; the generated `SimpleGlyph::read` is `Glyf.readSimple`.
 -/
 import FontVerif.Model.ReadIter
 import FontVerif.Model.HandRead
+import FontVerif.Model.Glyf
 namespace FontVerif.HandGlyf
 open FontVerif FontVerif.ReadIter FontVerif.HandRead
+open FontVerif.Glyf (hasBit ON_CURVE X_SHORT Y_SHORT REPEAT X_SAME Y_SAME Anchor Transform
+  ARG_WORDS ARGS_XY HAVE_SCALE MORE_COMPONENTS HAVE_XY_SCALE HAVE_2X2 HAVE_INSTR COMPOSITE_ALL)
+
+/-! ## machine arithmetic of the overflow-checked profile (`none` = panic) -/
+
+def U16_MAX : Nat := 65535
+def U32_MAX : Nat := 4294967295
+
+/-- `a + b` on `u16` -/
+def addU16 (a b : Nat) : Option Nat := if a + b ≤ U16_MAX then some (a + b) else none
+/-- `a + b` on `u32` -/
+def addU32 (a b : Nat) : Option Nat := if a + b ≤ U32_MAX then some (a + b) else none
+/-- `a * b` on `u32` -/
+def mulU32 (a b : Nat) : Option Nat := if a * b ≤ U32_MAX then some (a * b) else none
+/-- `a - b` on an unsigned type -/
+def subU (a b : Nat) : Option Nat := if b ≤ a then some (a - b) else none
+/-- `a + b` on `usize` -/
+def addUsize (a b : Nat) : Option Nat := if a + b ≤ MAXU then some (a + b) else none
+
+/-- the `ReadError` values these functions return -/
+inductive GErr where
+  | oob
+  | invalidArrayLen
+  /-- `MalformedData("repeat count too large in glyf")` -/
+  | malformed
+  deriving DecidableEq, Repr
+
+/-- result of a fallible function: a value, a Rust `Err`, a panic, or (model artefact) out of fuel -/
+inductive R (α : Type) where
+  | ok (a : α)
+  | err (e : GErr)
+  | trap
+  | fuel
+  deriving Repr, DecidableEq
+
+def ofRErr : RErr → GErr
+  | .oob => .oob
+  | .invalidArrayLen => .invalidArrayLen
+
+/-! ## `SimpleGlyph` (glyf.rs)
+
+A parsed simple glyph is given by its `end_pts_of_contours()` (u16 values) and its `glyph_data()`
+bytes (generated accessors; `Glyf.readSimple`). -/
+
+/-- `SimpleGlyph::num_points`: `end_pts_of_contours().last().map(|last| last.get() as usize + 1).unwrap_or(0)`;
+`none` = the usize `+ 1` overflows. -/
+def numPoints (ends : List Nat) : Option Nat :=
+  match ends.getLast? with
+  | none => some 0
+  | some last => addUsize last 1
+
+/-- `SimpleGlyph::has_overlapping_contours`: `read_at::<SimpleGlyphFlags>(0)`, bit `OVERLAP_SIMPLE`
+(0x40), `unwrap_or_default()` -/
+def hasOverlappingContours (gd : List Nat) : Bool :=
+  match readAt gd 0 1 with
+  | some f => hasBit f 0x40
+  | none => false
+
+/-- `FieldLengths` -/
+structure Lens where
+  flags : Nat
+  x : Nat
+  y : Nat
+  deriving Repr, DecidableEq
+
+/-- loop state of `resolve_coords_len`: `cursor`, `flags_left`, `x_coords_len`, `y_coords_len` (u32s) -/
+structure RclSt where
+  c : Cur
+  left : Nat
+  x : Nat
+  y : Nat
+  deriving Repr, DecidableEq
+
+/-- the accumulation of one trip of `resolve_coords_len` (all `u32`, unchecked in the source):
+`x_coords_len += ((flags & x_short).bits() != 0) as u32 * repeats;`
+`x_coords_len += ((flags & x_long).bits() == 0) as u32 * repeats * 2;` (same for y),
+`flags_left -= repeats`.  `none` = overflow panic. -/
+def rclAccum (f repeats x y left : Nat) : Option (Nat × Nat × Nat) :=
+  let xs : Nat := if (f &&& X_SHORT) != 0 then 1 else 0
+  let xl : Nat := if (f &&& (X_SHORT ||| X_SAME)) == 0 then 1 else 0
+  let ys : Nat := if (f &&& Y_SHORT) != 0 then 1 else 0
+  let yl : Nat := if (f &&& (Y_SHORT ||| Y_SAME)) == 0 then 1 else 0
+  -- each `if` is the overflow test of one `u32` operation of the source, in evaluation order
+  let a := xs * repeats
+  if a > U32_MAX then none else
+  let x1 := x + a
+  if x1 > U32_MAX then none else
+  let b0 := xl * repeats
+  if b0 > U32_MAX then none else
+  let b := b0 * 2
+  if b > U32_MAX then none else
+  let x2 := x1 + b
+  if x2 > U32_MAX then none else
+  let c := ys * repeats
+  if c > U32_MAX then none else
+  let y1 := y + c
+  if y1 > U32_MAX then none else
+  let d0 := yl * repeats
+  if d0 > U32_MAX then none else
+  let d := d0 * 2
+  if d > U32_MAX then none else
+  let y2 := y1 + d
+  if y2 > U32_MAX then none else
+  if left < repeats then none else
+  some (x2, y2, left - repeats)
+
+/-- what one trip round a `while` loop does -/
+inductive Trip (σ α : Type) where
+  | next (s : σ)
+  | ret (r : R α)
+
+/-- body of `while flags_left > 0` in `resolve_coords_len`:
+`let flags = cursor.read()?;` `repeats = if REPEAT_FLAG { u32::from(cursor.read::<u8>()?) + 1 } else { 1 }`,
+`if repeats > flags_left { return Err(MalformedData) }`, the accumulation. -/
+def rclBody (d : List Nat) (s : RclSt) : Trip RclSt Lens :=
+  match s.c.read d 1 with
+  | (none, _) => .ret (.err .oob)
+  | (some f, c1) =>
+    let rr : R (Nat × Cur) :=
+      if hasBit f REPEAT then
+        match c1.read d 1 with
+        | (none, _) => .err .oob
+        | (some r, c2) =>
+          match addU32 r 1 with
+          | none => .trap
+          | some v => .ok (v, c2)
+      else .ok (1, c1)
+    match rr with
+    | .err e => .ret (.err e)
+    | .trap => .ret .trap
+    | .fuel => .ret .fuel
+    | .ok (repeats, c2) =>
+      if repeats > s.left then .ret (.err .malformed)
+      else
+        match rclAccum f repeats s.x s.y s.left with
+        | none => .ret .trap
+        | some (x2, y2, l) => .next ⟨c2, l, x2, y2⟩
+
+/-- after the loop: `Ok(FieldLengths { flags: cursor.position()? as u32, .. })` -/
+def rclFinish (d : List Nat) (s : RclSt) : R Lens :=
+  match s.c.position d with
+  | none => .err .oob
+  | some p => .ok ⟨p % 4294967296, s.x, s.y⟩
+
+def rclLoop (d : List Nat) : Nat → RclSt → R Lens
+  | 0, _ => .fuel
+  | fuel + 1, s =>
+    if s.left = 0 then rclFinish d s
+    else
+      match rclBody d s with
+      | .ret r => r
+      | .next s' => rclLoop d fuel s'
+
+/-- `resolve_coords_len(data, points_total)` (`points_total: u16`); every trip consumes a byte, so
+`data.len() + 1` units of fuel always suffice (`resolveCoordsLen_total`). -/
+def resolveCoordsLen (d : List Nat) (total : Nat) : R Lens :=
+  rclLoop d (d.length + 1) ⟨Cur.init, total, 0, 0⟩
+
+/-- `struct PointIter`: three cursors over three slices, `flag_repeats: u16`, `cur_flags`,
+`cur_x`, `cur_y: i16` -/
+structure PiSt where
+  fd : List Nat
+  xd : List Nat
+  yd : List Nat
+  fc : Cur
+  xc : Cur
+  yc : Cur
+  rep : Nat
+  flags : Nat
+  x : Int
+  y : Int
+  deriving Repr, DecidableEq
+
+/-- `PointIter::new` -/
+def PiSt.new (flags xs ys : List Nat) : PiSt :=
+  { fd := flags, xd := xs, yd := ys, fc := Cur.init, xc := Cur.init, yc := Cur.init,
+    rep := 0, flags := 0, x := 0, y := 0 }
+
+/-- result of `PointIter::advance_flags` -/
+inductive AF where
+  /-- `None` (the `?` on the flag read) -/
+  | none (s : PiSt)
+  | trap
+  | ok (s : PiSt)
+
+/-- `PointIter::advance_flags`: when `flag_repeats == 0` read a flag byte (`?`), then
+`flag_repeats = contains(REPEAT_FLAG).then(|| flags.read::<u8>().ok()).flatten().unwrap_or(0) as u16 + 1`;
+in every case `flag_repeats -= 1`.  The two u16 operations are unchecked in the source. -/
+def advanceFlags (s : PiSt) : AF :=
+  if s.rep = 0 then
+    match s.fc.read s.fd 1 with
+    | (none, c1) => .none { s with fc := c1 }
+    | (some f, c1) =>
+      let rr : Nat × Cur :=
+        if hasBit f REPEAT then (let r := c1.read s.fd 1; (r.1.getD 0, r.2)) else (0, c1)
+      match addU16 rr.1 1 with
+      | none => .trap
+      | some fr =>
+        match subU fr 1 with
+        | none => .trap
+        | some fr' => .ok { s with fc := rr.2, flags := f, rep := fr' }
+  else
+    match subU s.rep 1 with
+    | none => .trap
+    | some r => .ok { s with rep := r }
+
+/-- one coordinate of `PointIter::advance_points`:
+`(true, false) => -(read::<u8>().unwrap_or(0) as i16)`, `(true, true) => read::<u8>().unwrap_or(0) as i16`,
+`(false, false) => read::<i16>().unwrap_or(0)`, `_ => 0` (the negation of a value in 0..=255 cannot
+overflow an i16) -/
+def readDelta (short same : Bool) (d : List Nat) (c : Cur) : Int × Cur :=
+  match short, same with
+  | true, false => let r := c.read d 1; (-((r.1.getD 0 : Nat) : Int), r.2)
+  | true, true => let r := c.read d 1; (((r.1.getD 0 : Nat) : Int), r.2)
+  | false, false => let r := c.read d 2; (wrapI16 ((r.1.getD 0 : Nat) : Int), r.2)
+  | false, true => (0, c)
+
+/-- `PointIter::advance_points` (`wrapping_add` on i16) -/
+def advancePoints (s : PiSt) : PiSt :=
+  let dx := readDelta (hasBit s.flags X_SHORT) (hasBit s.flags X_SAME) s.xd s.xc
+  let dy := readDelta (hasBit s.flags Y_SHORT) (hasBit s.flags Y_SAME) s.yd s.yc
+  { s with xc := dx.2, yc := dy.2, x := wrapI16 (s.x + dx.1), y := wrapI16 (s.y + dy.1) }
+
+/-- a `CurvePoint`: x, y, on_curve -/
+abbrev Pt := Int × Int × Bool
+
+/-- `impl Iterator for PointIter`: `self.advance_flags()?; self.advance_points(); Some(..)` -/
+def piStep (s : PiSt) : Out Pt × PiSt :=
+  match advanceFlags s with
+  | .none s1 => (.done, s1)
+  | .trap => (.trap, s)
+  | .ok s1 =>
+    let s2 := advancePoints s1
+    (.yield (s2.x, s2.y, hasBit s2.flags ON_CURVE), s2)
+
+/-- result of `SimpleGlyph::points_impl` -/
+inductive PImpl where
+  | none
+  | trap
+  | fuel
+  | some (s : PiSt)
+  deriving Repr, DecidableEq
+
+/-- `SimpleGlyph::points_impl`: `n_points = end_points.last()?.get().checked_add(1)?`,
+`lens = resolve_coords_len(data, n_points).ok()?`,
+`total_len = lens.flags + lens.x_coords + lens.y_coords` (unchecked u32 adds),
+`if data.len() < total_len as usize { return None }`, two `split_at`s (panic when `mid > len`). -/
+def pointsImpl (ends gd : List Nat) : PImpl :=
+  match ends.getLast? with
+  | none => .none
+  | some last =>
+    if last + 1 > U16_MAX then .none
+    else
+      match resolveCoordsLen gd (last + 1) with
+      | .err _ => .none
+      | .trap => .trap
+      | .fuel => .fuel
+      | .ok lens =>
+        match addU32 lens.flags lens.x with
+        | none => .trap
+        | some t1 =>
+          match addU32 t1 lens.y with
+          | none => .trap
+          | some total =>
+            if gd.length < total then .none
+            else if lens.flags > gd.length then .trap
+            else
+              let rest := gd.drop lens.flags
+              if lens.x > rest.length then .trap
+              else .some (PiSt.new (gd.take lens.flags) (rest.take lens.x) (rest.drop lens.x))
+
+/-- `SimpleGlyph::points()`: `points_impl().unwrap_or_else(|| PointIter::new(&[], &[], &[]))`,
+collected; `none` = `points_impl` panicked (or ran out of fuel).  A flag byte yields at most 256
+points, so `256 · flags.len() + 1` units of fuel suffice (`pointIter_bounded`). -/
+def points (ends gd : List Nat) : Option (List (Out Pt)) :=
+  match pointsImpl ends gd with
+  | .trap => none
+  | .fuel => none
+  | .none => run piStep 1 (PiSt.new [] [] [])
+  | .some s => run piStep (256 * s.fd.length + 1) s
+
+/-! ### `read_points_fast` -/
+
+/-- the `while let Some(flag_bits) = flags_iter.next()` loop of `read_points_fast` over the
+`flags_data` bytes still to come: `read_flags_bytes`, `i`, the caller's flag buffer.
+
+repeat flag: `count = (flags_iter.next().ok_or(OutOfBounds)? as usize + 1).min(n_points - i)`,
+`for f in &mut flags[i..i + count] { f.0 = flag_bits }`, `i += count`; otherwise
+`flags[i].0 = flag_bits; i += 1`; `if i == n_points { break }`.
+Returns `(read_flags_bytes, flags)`. -/
+def fastFlags (n : Nat) : List Nat → (rfb i : Nat) → (buf : List Nat) → R (Nat × List Nat)
+  | [], rfb, _, buf => .ok (rfb, buf)
+  | f :: rest, rfb, i, buf =>
+    match addUsize rfb 1 with
+    | none => .trap
+    | some rfb1 =>
+      if hasBit f REPEAT then
+        match rest with
+        | [] => .err .oob
+        | r :: rest' =>
+          match addUsize r 1, subU n i with
+          | some r1, some room =>
+            let count := min r1 room
+            match addUsize rfb1 1, addUsize i count with
+            | some rfb2, some e =>
+              if e > buf.length then .trap
+              else
+                let buf' := buf.take i ++ List.replicate count f ++ buf.drop e
+                if e = n then .ok (rfb2, buf') else fastFlags n rest' rfb2 e buf'
+            | _, _ => .trap
+          | _, _ => .trap
+      else
+        if i < buf.length then
+          let buf' := buf.set i f
+          match addUsize i 1 with
+          | none => .trap
+          | some i' => if i' = n then .ok (rfb1, buf') else fastFlags n rest rfb1 i' buf'
+        else .trap
+
+/-- one delta of `read_points_fast`: short vector → `cursor.read::<u8>()? as i32`, negated unless the
+same/positive bit is set; else, unless that bit is set, `cursor.read::<i16>()? as i32`; else 0.
+`none` = `Err(OutOfBounds)`. -/
+def fastDelta (short same : Bool) (d : List Nat) (c : Cur) : Option (Int × Cur) :=
+  if short then
+    match c.read d 1 with
+    | (none, _) => none
+    | (some v, c1) => some (if same then ((v : Nat) : Int) else -((v : Nat) : Int), c1)
+  else if !same then
+    match c.read d 2 with
+    | (none, _) => none
+    | (some v, c1) => some (wrapI16 ((v : Nat) : Int), c1)
+  else some (0, c)
+
+/-- one coordinate pass of `read_points_fast` over the (expanded) flags: `x = x.wrapping_add(delta)`
+on i32 -/
+def fastCoords (short same : Nat) (d : List Nat) : List Nat → Cur → Int → R (List Int × Cur)
+  | [], c, _ => .ok ([], c)
+  | f :: fs, c, acc =>
+    match fastDelta (hasBit f short) (hasBit f same) d c with
+    | none => .err .oob
+    | some (dl, c1) =>
+      let acc' := wrapI32 (acc + dl)
+      match fastCoords short same d fs c1 acc' with
+      | .ok (l, c2) => .ok (acc' :: l, c2)
+      | .err e => .err e
+      | .trap => .trap
+      | .fuel => .fuel
+
+/-- `SimpleGlyph::read_points_fast::<i32>(points, flags)` with `points.len() = pl` and the caller's
+flag buffer `flags0` (its content is observable: slots the glyph's flag bytes do not reach keep the
+caller's bits and steer the coordinate decoding).  `mask` is `PointFlags::ON_CURVE` (0x01), or
+`CURVE_MASK` (0x81) with feature `spec_next`.  Result: `(x, y, flag bits)` per point. -/
+def readPointsFast (ends gd : List Nat) (pl : Nat) (flags0 : List Nat) (mask : Nat) :
+    R (List (Int × Int × Nat)) :=
+  match numPoints ends with
+  | none => .trap
+  | some n =>
+    if pl ≠ n ∨ flags0.length ≠ n then .err .invalidArrayLen
+    else
+      let c0 := Cur.init
+      match (c0.readArray gd (min n (c0.remainingBytes gd)) 1).1 with
+      | .error e => .err (ofRErr e)
+      | .ok k =>
+        match fastFlags n (gd.take k) 0 0 flags0 with
+        | .err e => .err e
+        | .trap => .trap
+        | .fuel => .fuel
+        | .ok (rfb, buf) =>
+          let c := Cur.init.advanceBy rfb
+          match fastCoords X_SHORT X_SAME gd buf c 0 with
+          | .err e => .err e
+          | .trap => .trap
+          | .fuel => .fuel
+          | .ok (xs, c1) =>
+            match fastCoords Y_SHORT Y_SAME gd buf c1 0 with
+            | .err e => .err e
+            | .trap => .trap
+            | .fuel => .fuel
+            | .ok (ys, _) => .ok ((xs.zip (ys.zip buf)).map (fun t => (t.1, t.2.1, t.2.2 &&& mask)))
+
+/-! ## `CompositeGlyph` (glyf.rs): the data is `component_data()` -/
+
+/-- `struct ComponentIter` / `struct ComponentGlyphIdFlagsIter` -/
+structure CSt where
+  curFlags : Nat
+  done : Bool
+  c : Cur
+  deriving Repr, DecidableEq
+
+/-- `CompositeGlyph::components` / `component_glyphs_and_flags`: the initial iterator -/
+def CSt.init : CSt := ⟨0, false, Cur.init⟩
+
+/-- successive `self.cursor.read::<T>().ok()?` of the given sizes: stops at the first failure (the
+cursor keeps the advance of the failed read) -/
+def readSeq (d : List Nat) : List Nat → Cur → Option (List Nat) × Cur
+  | [], c => (some [], c)
+  | sz :: rest, c =>
+    match c.read d sz with
+    | (none, c1) => (none, c1)
+    | (some v, c1) =>
+      match readSeq d rest c1 with
+      | (none, c2) => (none, c2)
+      | (some vs, c2) => (some (v :: vs), c2)
+
+/-- byte sizes of the two anchor arguments (`ARG_1_AND_2_ARE_WORDS`) -/
+def argSizes (flags : Nat) : List Nat := if hasBit flags ARG_WORDS then [2, 2] else [1, 1]
+
+/-- byte sizes of the transform values: `WE_HAVE_A_SCALE`, else `WE_HAVE_AN_X_AND_Y_SCALE`, else
+`WE_HAVE_A_TWO_BY_TWO` -/
+def transformSizes (flags : Nat) : List Nat :=
+  if hasBit flags HAVE_SCALE then [2]
+  else if hasBit flags HAVE_XY_SCALE then [2, 2]
+  else if hasBit flags HAVE_2X2 then [2, 2, 2, 2]
+  else []
+
+/-- the `Anchor` of `ComponentIter::next` from the two raw arguments:
+`(args_are_xy_values, args_are_words)` → `Offset` of i16 / `i8 as i16`, `Point` of u16 / `u8 as u16` -/
+def decodeAnchor (flags a b : Nat) : Anchor :=
+  match hasBit flags ARGS_XY, hasBit flags ARG_WORDS with
+  | true, true => .offset (wrapI16 (a : Int)) (wrapI16 (b : Int))
+  | true, false => .offset (wrapI8 (a : Int)) (wrapI8 (b : Int))
+  | false, _ => .point a b
+
+/-- the `Transform` of `ComponentIter::next` (`Transform::default()` = identity, `F2Dot14` 1.0 =
+0x4000; a single scale sets `yy = xx`) from the raw values read -/
+def decodeTransform (vals : List Nat) : Transform :=
+  match vals with
+  | [a] => ⟨wrapI16 (a : Int), 0, 0, wrapI16 (a : Int)⟩
+  | [a, d] => ⟨wrapI16 (a : Int), 0, 0, wrapI16 (d : Int)⟩
+  | [a, b, c, d] => ⟨wrapI16 (a : Int), wrapI16 (b : Int), wrapI16 (c : Int), wrapI16 (d : Int)⟩
+  | _ => ⟨16384, 0, 0, 16384⟩
+
+/-- a `Component` -/
+structure Comp where
+  flags : Nat
+  gid : Nat
+  anchor : Anchor
+  t : Transform
+  deriving Repr, DecidableEq
+
+/-- `ComponentIter::next`: `if self.done { return None }`, flags (`from_bits_truncate`), glyph id, the
+two anchor arguments, the transform values — every read `.ok()?` —, `done = !MORE_COMPONENTS`. -/
+def compStep (d : List Nat) (s : CSt) : Out Comp × CSt :=
+  if s.done then (.done, s)
+  else
+    match s.c.read d 2 with
+    | (none, c1) => (.done, { s with c := c1 })
+    | (some raw, c1) =>
+      let flags := raw &&& COMPOSITE_ALL
+      match c1.read d 2 with
+      | (none, c2) => (.done, { s with curFlags := flags, c := c2 })
+      | (some gid, c2) =>
+        match readSeq d (argSizes flags ++ transformSizes flags) c2 with
+        | (none, c3) => (.done, { s with curFlags := flags, c := c3 })
+        | (some vals, c3) =>
+          (.yield ⟨flags, gid, decodeAnchor flags (vals.getD 0 0) (vals.getD 1 0), decodeTransform (vals.drop 2)⟩,
+           ⟨flags, !hasBit flags MORE_COMPONENTS, c3⟩)
+
+/-- `CompositeGlyph::components().collect()`: every yielded component consumed ≥ 6 bytes -/
+def components (d : List Nat) : Option (List (Out Comp)) :=
+  run (compStep d) (d.length + 1) CSt.init
+
+/-- `ComponentGlyphIdFlagsIter::next`: flags and glyph id are read (`.ok()?`), the arguments and the
+transform are skipped with `advance_by` (which never fails; the position may pass the end) -/
+def gfStep (d : List Nat) (s : CSt) : Out (Nat × Nat) × CSt :=
+  if s.done then (.done, s)
+  else
+    match s.c.read d 2 with
+    | (none, c1) => (.done, { s with c := c1 })
+    | (some raw, c1) =>
+      let flags := raw &&& COMPOSITE_ALL
+      match c1.read d 2 with
+      | (none, c2) => (.done, { s with curFlags := flags, c := c2 })
+      | (some gid, c2) =>
+        let c3 := c2.advanceBy (if hasBit flags ARG_WORDS then 4 else 2)
+        let c4 :=
+          if hasBit flags HAVE_SCALE then c3.advanceBy 2
+          else if hasBit flags HAVE_XY_SCALE then c3.advanceBy 4
+          else if hasBit flags HAVE_2X2 then c3.advanceBy 8
+          else c3
+        (.yield (gid, flags), ⟨flags, !hasBit flags MORE_COMPONENTS, c4⟩)
+
+/-- `CompositeGlyph::component_glyphs_and_flags().collect()` -/
+def glyphsAndFlags (d : List Nat) : Option (List (Out (Nat × Nat))) :=
+  run (gfStep d) (d.length + 1) CSt.init
+
+/-- `while iter.by_ref().next().is_some() { count += 1 }` of `count_and_instructions` (`count` is a
+usize); returns the count and the iterator as the loop leaves it -/
+def countLoop (d : List Nat) : Nat → CSt → Nat → R (Nat × CSt)
+  | 0, _, _ => .fuel
+  | fuel + 1, s, count =>
+    match gfStep d s with
+    | (.yield _, s') =>
+      match addUsize count 1 with
+      | none => .trap
+      | some c' => countLoop d fuel s' c'
+    | (.trap, _) => .trap
+    | (_, s') => .ok (count, s')
+
+/-- `CompositeGlyph::count_and_instructions`: the count and, when the LAST flags read contain
+`WE_HAVE_INSTRUCTIONS`, `cursor.read::<u16>().ok().and_then(|len| cursor.read_array(len).ok())` —
+as the byte range `(start, len)` of `component_data()` handed out -/
+def countAndInstructions (d : List Nat) : R (Nat × Option (Nat × Nat)) :=
+  match countLoop d (d.length + 1) CSt.init 0 with
+  | .err e => .err e
+  | .trap => .trap
+  | .fuel => .fuel
+  | .ok (count, s) =>
+    if hasBit s.curFlags HAVE_INSTR then
+      match s.c.read d 2 with
+      | (none, _) => .ok (count, none)
+      | (some len, c1) =>
+        match (c1.readArray d len 1).1 with
+        | .error _ => .ok (count, none)
+        | .ok k => .ok (count, some (c1.pos, k))
+    else .ok (count, none)
+
+/-- `CompositeGlyph::instructions` = `count_and_instructions().1` -/
+def instructions (d : List Nat) : R (Option (Nat × Nat)) :=
+  match countAndInstructions d with
+  | .ok r => .ok r.2
+  | .err e => .err e
+  | .trap => .trap
+  | .fuel => .fuel
+
+/-! ## `Loca` (loca.rs) -/
+
+/-- `enum Loca { Short(&[BigEndian<u16>]), Long(&[BigEndian<u32>]) }`: the raw entries -/
+structure Loca where
+  long : Bool
+  entries : List Nat
+  deriving Repr, DecidableEq
+
+/-- `Loca::read(data, is_long)` = `read_with_args`: `data.read_array(0..data.len())` of u32 / u16 -/
+def locaRead (d : List Nat) (isLong : Bool) : Except RErr Loca :=
+  let w := if isLong then 4 else 2
+  match HandRead.readArray d 0 d.length w with
+  | .error e => .error e
+  | .ok n => .ok ⟨isLong, (List.range n).map (fun i => HandRead.beAt d (i * w) w)⟩
+
+/-- `Loca::len`: `data.len().saturating_sub(1)` -/
+def Loca.len (l : Loca) : Nat := l.entries.length - 1
+
+/-- `Loca::is_empty` -/
+def Loca.isEmpty (l : Loca) : Bool := l.len == 0
+
+/-- `Loca::all_offsets_are_ascending`: `!data.iter().zip(data.iter().skip(1)).any(|(start, end)| start > end)` -/
+def Loca.allAscending (l : Loca) : Bool :=
+  !(l.entries.zip (l.entries.drop 1)).any (fun p => decide (p.1 > p.2))
+
+/-- `Loca::get_raw(idx)`: `data.get(idx)`, short entries `x.get() as u32 * 2` (unchecked u32
+product).  `.ok none` = `None`. -/
+def Loca.getRaw (l : Loca) (idx : Nat) : R (Option Nat) :=
+  match l.entries[idx]? with
+  | none => .ok none
+  | some v =>
+    if l.long then .ok (some v)
+    else
+      match mulU32 v 2 with
+      | none => .trap
+      | some w => .ok (some w)
+
+/-- result of `Loca::get_glyf` up to the call of the generated `Glyph::read` -/
+inductive GG where
+  | err (e : GErr)
+  | trap
+  /-- `Ok(None)`: `start == end` -/
+  | none
+  /-- the slice `start..end` of the glyf table handed to `Glyph::read` -/
+  | slice (a b : Nat)
+  deriving Repr, DecidableEq
+
+/-- `Loca::get_glyf(gid, glyf)`: `idx = gid.to_u32() as usize`, `get_raw(idx)`, `get_raw(idx + 1)`
+(unchecked usize `+ 1`), `Ok(None)` for an empty range,
+`glyf.offset_data().slice(start as usize..end as usize).ok_or(OutOfBounds)?` -/
+def Loca.getGlyf (l : Loca) (glyfLen gid : Nat) : GG :=
+  match l.getRaw gid with
+  | .trap => .trap
+  | .fuel => .trap
+  | .err e => .err e
+  | .ok none => .err .oob
+  | .ok (some start) =>
+    match addUsize gid 1 with
+    | none => .trap
+    | some idx1 =>
+      match l.getRaw idx1 with
+      | .trap => .trap
+      | .fuel => .trap
+      | .err e => .err e
+      | .ok none => .err .oob
+      | .ok (some end_) =>
+        if start = end_ then .none
+        else
+          match getRange glyfLen start end_ with
+          | none => .err .oob
+          | some _ => .slice start end_
 
 end FontVerif.HandGlyf
